@@ -192,7 +192,7 @@ func vfE7NewCluster(nl, nn int) *vfE7Cluster {
 		st := &vfE7Stub{sym: sym, isLookupd: isL, cl: c}
 		st.up.Store(true)
 		st.hasTopic.Store(true)
-		st.srv = httptest.NewServer(st)
+		st.srv = vfHTTPServer(st)
 		st.addr = strings.TrimPrefix(st.srv.URL, "http://")
 		c.stubs[sym] = st
 		c.bySym[sym] = st.addr
@@ -357,7 +357,7 @@ type vfE7Env struct {
 func vfE7Setup(t *testing.T, name string) *vfE7Env {
 	e := &vfE7Env{t: t, cl: vfE7NewCluster(2, 3), hist: map[string]int{}}
 	opts := NewOptions()
-	opts.HTTPAddress = "127.0.0.1:0"
+	opts.HTTPAddress = vfLoopAddr()
 	opts.NSQLookupdHTTPAddresses = []string{e.cl.bySym["L0"]}
 	opts.Logger = vfE7NullLogger{}
 	opts.LogLevel = lg.FATAL
@@ -370,7 +370,7 @@ func vfE7Setup(t *testing.T, name string) *vfE7Env {
 	e.n = n
 	e.base = *opts
 	e.hs = NewHTTPServer(n)
-	e.ts = httptest.NewServer(http.HandlerFunc(func(w http.ResponseWriter, r *http.Request) {
+	e.ts = vfHTTPServer(http.HandlerFunc(func(w http.ResponseWriter, r *http.Request) {
 		e.gotHdr = r.Header.Clone()
 		e.hs.ServeHTTP(w, r)
 	}))
@@ -1098,7 +1098,7 @@ func TestVerifE7Config(t *testing.T) {
 // The second send returns only when the loop is back at its receive, i.e. after the first action was handled.
 func TestVerifE7NotifyEndpointDown(t *testing.T) {
 	opts := NewOptions()
-	opts.HTTPAddress = "127.0.0.1:0"
+	opts.HTTPAddress = vfLoopAddr()
 	opts.NSQLookupdHTTPAddresses = []string{vfE7Dead}
 	opts.NotificationHTTPEndpoint = "http://" + vfE7Dead + "/notify"
 	opts.Logger = vfE7NullLogger{}
